@@ -417,7 +417,9 @@ class AnyGen:
             e = p.Call(r.choice([p.Variable("f"), p.Variable("g"), g()]),
                        self.tup(d - 1, 0))
         elif k == "callkw":
-            keys = r.sample(["k", "j", "b"], r.randint(1, 3))
+            # (also NO keyword at all: a CallWithKwargs node with an empty mapping is a node of
+            #  its own, not a Call)
+            keys = r.sample(["k", "j", "b"], r.choice([0, 1, 1, 2, 3]))
             e = p.CallWithKwargs(p.Variable("f"), self.tup(d - 1, 0),
                                  immutabledict({kk: g() for kk in keys}))
         elif k == "sub":
